@@ -15,6 +15,8 @@
      calib <seed> <k> <bursts>
          same run, prints the observed maxima of the S4 statistics instead of judging them
          (used once, by hand, to produce tools/c09_calibration.json).
+     rebound <seed> <n> <rdecay,rdecay2,rhdecay,rhdecay2> [quiet]   /   rcalib <seed> <n>
+         n sessions "burst - k received packets - sustained burst" on quiet-lead-in / loud stationary streams (run_rebound)
    <thresholds> = peak,decay,reconv,fecratio,decay2,fecframe,reconvw  (floats; from tools/props/C09_calib.json)
 
    S4 oracles (on the implementation, thresholds calibrated on the unchanged tree):
@@ -471,6 +473,96 @@ static void run_onset(vrng *r, int idx)
    free_stream(&S);
 }
 
+/* ------------------------------------------------------------------ rebound sessions (mode `rebound`)
+   Loss-pattern family "burst - k received packets (k = 1..3) - sustained burst" on a stream with a QUIET lead-in followed by
+   LOUD STATIONARY content (coloured noise): what the decoder learnt as background level during the quiet passage, plus what a
+   long first burst lets it add on the first received packet (celt_decoder.c: backgroundLogE / max_background_increase on a
+   decoded frame, floor of the noise concealment), decides how far the SECOND burst decays.  Packets are encoded and decoded on
+   the fly (only received packets are shown to the decoder; the encoder runs through the lost stretches on the same signal).
+   Statistic, per output channel: rms 1.0-1.1 s / 2.0-2.1 s into the second burst over the rms of the k packets received just
+   before it (rdecay / rdecay2 for CELT-only streams, rhdecay / rhdecay2 for hybrid ones).  */
+static struct { double rdecay, rdecay2, rhdecay, rhdecay2; } TH2 = { 1e9, 1e9, 1e9, 1e9 };
+static struct { double rdecay, rdecay2, rhdecay, rhdecay2; long n, nh, sess; } OBS2;
+typedef struct { int base, dur, Fs, ch, ench, k; double b1, gap_db, tloud; } rcfg;
+static const rcfg RB[] = {
+   /* base  dur Fs     ch ench k  burst1(s) gap(dB) loud lead (s) */
+   { 6,     8, 48000, 1, 1,   1, 16.0,     34,     0.8 },     /* CELT FB 20 ms mono */
+   { 6,     8, 48000, 2, 2,   3, 14.0,     30,     1.0 },     /* CELT FB 20 ms stereo */
+   { 4,     8, 48000, 1, 1,   1, 16.0,     34,     0.8 },     /* hybrid FB 20 ms (contrast: CELT conceals only bands >= 17) */
+   { 6,     4, 48000, 1, 1,   2, 12.0,     28,     0.7 },     /* CELT FB 10 ms */
+   { 7,     8, 16000, 1, 1,   2, 15.0,     32,     0.9 },     /* CELT WB 20 ms into a 16 kHz decoder */
+   { 5,     8, 24000, 2, 2,   1, 15.0,     32,     0.8 },     /* hybrid SWB 20 ms stereo */
+};
+#define NRB ((int)(sizeof RB / sizeof RB[0]))
+
+static void run_rebound(vrng *r, int idx, const char *seedstr)
+{
+   rcfg rc = RB[idx % NRB]; lcfg c; int err, D, N, i, ch, nq, nl, nb1, nb2, total, shape, hyb, cc; OpusEncoder *enc; OpusDecoder *A;
+   static float in[2 * 1920], o[2 * 1920]; static unsigned char buf[1500]; static unsigned char dummy[1];
+   double a_loud, a_quiet, nzs[2] = {0, 0}; vrng nr; double pe[2] = {0, 0}, e1[2] = {0, 0}, e2[2] = {0, 0}; long npe = 0, n1 = 0, n2 = 0;
+   char desc[320]; int w1a, w1b, w2a, w2b, b2start;
+   if (idx >= NRB) {
+      /* random variations: burst 3-20 s, k 1..3, gap 26-38 dB, loud lead-in 0.5-1.2 s */
+      rc.k = 1 + (int)vbelow(r, 3); rc.b1 = 3.0 + vbelow(r, 171) / 10.0; rc.gap_db = 26 + vbelow(r, 13); rc.tloud = 0.5 + vbelow(r, 71) / 100.0;
+   }
+   c = BASE[rc.base]; c.dur = rc.dur; c.Fs = rc.Fs; c.ch = rc.ch; c.ench = rc.ench; c.fec = 0; c.gain = 0; c.sig = 0; c.sw = 0;
+   hyb = c.mode == MODE_HYBRID; ch = c.ch; D = c.dur * (c.Fs / 400); N = c.dur * 120;
+   a_loud = 0.2 + vbelow(r, 100) / 1000.0; a_quiet = a_loud * pow(10.0, -rc.gap_db / 20.0); nr.s = vnext(r);
+   shape = (int)vbelow(r, 2);
+   nq = (int)(1.0 * 48000) / N; nl = (int)(rc.tloud * 48000) / N + 1; nb1 = (int)(rc.b1 * 48000) / N; nb2 = (int)(2.12 * 48000) / N + 2;
+   total = nq + nl + nb1 + rc.k + nb2; b2start = nq + nl + nb1 + rc.k;
+   w1a = b2start + (int)(1.0 * 48000) / N; w1b = b2start + (int)(1.1 * 48000) / N; w2a = b2start + (int)(2.0 * 48000) / N; w2b = b2start + (int)(2.1 * 48000) / N;
+   enc = opus_encoder_create(48000, c.ench, c.mode == MODE_CELT_ONLY ? OPUS_APPLICATION_AUDIO : OPUS_APPLICATION_VOIP, &err);
+   A = opus_decoder_create(c.Fs, ch, &err);
+   if (!enc || !A) return;
+   opus_encoder_ctl(enc, OPUS_SET_BITRATE(c.bitrate * (c.ench == 2 && c.mode == MODE_CELT_ONLY ? 1 : 1)));
+   opus_encoder_ctl(enc, OPUS_SET_FORCE_MODE(c.mode));
+   opus_encoder_ctl(enc, OPUS_SET_BANDWIDTH(c.bw)); opus_encoder_ctl(enc, OPUS_SET_MAX_BANDWIDTH(c.bw));
+   opus_encoder_ctl(enc, OPUS_SET_COMPLEXITY(5));
+   sprintf(desc, "rebound seed=%s session=%d: %s %d ms, %d-channel stream into a %d Hz %d-channel decoder, %s; noise %.4f for %d packets then %.4f (%.0f dB louder); "
+           "packets 0..%d received, %d..%d lost (%.1f s), %d..%d received, %d..%d lost", seedstr, idx, hyb ? "hybrid" : "CELT-only", c.dur * 5 / 2, c.ench, c.Fs, ch,
+           shape ? "concealment split into 2.5-20 ms pieces" : "one concealment call per packet", a_quiet, nq, a_loud, rc.gap_db,
+           nq + nl - 1, nq + nl, nq + nl + nb1 - 1, rc.b1, nq + nl + nb1, b2start - 1, b2start, total - 1);
+   OBS2.sess++; OBS.nsess++;
+   for (i = 0; i < total; i++) {
+      int lost = (i >= nq + nl && i < nq + nl + nb1) || i >= b2start, j, len; double a = i < nq ? a_quiet : a_loud;
+      for (j = 0; j < N; j++) for (cc = 0; cc < c.ench; cc++) {
+         nzs[cc] = 0.5 * nzs[cc] + 0.5 * (((int)vbelow(&nr, 2001) - 1000) / 1000.0);
+         in[j * c.ench + cc] = (float)(a * nzs[cc]);
+      }
+      len = opus_encode_float(enc, in, N, buf, sizeof buf);
+      if (len <= 0) break;
+      if (!lost) {
+         callres cr = do_call(A, FMTF, buf, len, 0, len, D, 0, o); opus_uint32 rg = 0, eg = 0;
+         if (cr.ret != D) { witness("recv", "received packet %d returned %s", i, ret_str(cr.ret)); break; }
+         opus_decoder_ctl(A, OPUS_GET_FINAL_RANGE(&rg)); opus_encoder_ctl(enc, OPUS_GET_FINAL_RANGE(&eg)); OBS.nrange++;
+         if (rg != eg) witness("range", "packet %d %s: decoder final range %08x, encoder %08x", i, i >= nq + nl ? "after a loss burst" : "no loss", (unsigned)rg, (unsigned)eg);
+         if (i >= nq + nl + nb1) { for (j = 0; j < D; j++) for (cc = 0; cc < ch; cc++) pe[cc] += (double)o[j * ch + cc] * o[j * ch + cc]; npe += D; }
+      } else {
+         if (!conceal(A, &c, r, D, shape, o, FMTF)) { witness("conceal", "concealment of packet %d did not return the requested duration", i); break; }
+         if (i >= w1a && i <= w1b) { for (j = 0; j < D; j++) for (cc = 0; cc < ch; cc++) e1[cc] += (double)o[j * ch + cc] * o[j * ch + cc]; n1 += D; }
+         if (i >= w2a && i <= w2b) { for (j = 0; j < D; j++) for (cc = 0; cc < ch; cc++) e2[cc] += (double)o[j * ch + cc] * o[j * ch + cc]; n2 += D; }
+      }
+   }
+   if (i == total && npe > 0 && n1 > 0 && n2 > 0) for (cc = 0; cc < ch; cc++) {
+      double pv = sqrt(pe[cc] / npe), l1 = sqrt(e1[cc] / n1), l2 = sqrt(e2[cc] / n2), v[2], th[2], *ob[2]; const char *nm[2]; int q;
+      if (pv <= 0.01) continue;
+      v[0] = l1 / pv; v[1] = l2 / pv;
+      if (hyb) { nm[0] = "rhdecay"; nm[1] = "rhdecay2"; th[0] = TH2.rhdecay; th[1] = TH2.rhdecay2; ob[0] = &OBS2.rhdecay; ob[1] = &OBS2.rhdecay2; OBS2.nh++; }
+      else { nm[0] = "rdecay"; nm[1] = "rdecay2"; th[0] = TH2.rdecay; th[1] = TH2.rdecay2; ob[0] = &OBS2.rdecay; ob[1] = &OBS2.rdecay2; OBS2.n++; }
+      for (q = 0; q < 2; q++) {
+         if (v[q] > *ob[q]) *ob[q] = v[q];
+         if (g_calib || !(v[q] > th[q])) continue;
+         G.n_w++;
+         printf("W %s | channel %d: %d s into the second loss burst the concealed output has rms %.5f, the %d packet(s) received just before it rms %.5f: after a quiet lead-in, "
+                "a long burst and %d received packet(s) sustained loss does not fall well below the pre-loss level (observed %.4g > threshold %.4g) | %s\n",
+                nm[q], cc, q + 1, q ? l2 : l1, rc.k, pv, rc.k, v[q], th[q], desc);
+      }
+      if (g_calib) printf("# rebound session %d %s k=%d b1=%.1f gap=%.0f ch%d: %.5f %.5f\n", idx, hyb ? "hybrid" : "celt", rc.k, rc.b1, rc.gap_db, cc, v[0], v[1]);
+   }
+   opus_encoder_destroy(enc); opus_decoder_destroy(A);
+}
+
 int main(int argc, char **argv)
 {
    vrng r; int k, bursts, i;
@@ -498,6 +590,20 @@ int main(int argc, char **argv)
              OBS.nmode[0], OBS.nmode[1], OBS.nmode[2], OBS.nsw, OBS.nm2s, OBS.nedge);
       printf("# stats peak=%.4f(n=%ld) decay=%.5f(n=%ld) decay2=%.5f(n=%ld) reconv=%.4f(n=%ld) fecratio=%.4f fecframe=%.4f(n=%ld) reconvw=%.4f(n=%ld,onset_sessions=%ld)\n", OBS.peak, OBS.npeak, OBS.decay, OBS.ndecay,
              OBS.decay2, OBS.ndecay2, OBS.reconv, OBS.nreconv, OBS.fecratio, OBS.fecframe, OBS.nfecframe, OBS.reconvw, OBS.nreconvw, OBS.nonset);
+      return 0;
+   }
+   if (argc >= 4 && (!strcmp(argv[1], "rebound") || !strcmp(argv[1], "rcalib"))) {
+      /* rebound <seed> <n> <rdecay,rdecay2,rhdecay,rhdecay2> [quiet]  |  rcalib <seed> <n> */
+      int n;
+      g_calib = argv[1][1] == 'c';
+      r.s = strtoull(argv[2], 0, 10) * 0xD1342543DE82EF95ULL + 0x9FB21C651E98DF25ULL; r.s ^= vnext(&r) >> 7; n = atoi(argv[3]);
+      if (!g_calib) {
+         if (argc < 5 || sscanf(argv[4], "%lf,%lf,%lf,%lf", &TH2.rdecay, &TH2.rdecay2, &TH2.rhdecay, &TH2.rhdecay2) != 4) { fprintf(stderr, "thresholds?\n"); return 64; }
+         G.quiet = argc >= 6 && !strcmp(argv[5], "quiet");
+      } else G.quiet = 1;
+      for (i = 0; i < n; i++) run_rebound(&r, i, argv[2]);
+      printf("# rebound seed=%s sessions=%ld calls=%ld witnesses=%ld range=%ld celt_channels=%ld hybrid_channels=%ld\n", argv[2], OBS2.sess, G.n_calls, G.n_w, OBS.nrange, OBS2.n, OBS2.nh);
+      printf("# stats rdecay=%.5f rdecay2=%.5f(n=%ld) rhdecay=%.5f rhdecay2=%.5f(n=%ld)\n", OBS2.rdecay, OBS2.rdecay2, OBS2.n, OBS2.rhdecay, OBS2.rhdecay2, OBS2.nh);
       return 0;
    }
    fprintf(stderr, "usage: c09_loss loss <seed> <k> <bursts> <peak,decay,reconv,fecratio> [quiet] | calib <seed> <k> <bursts>\n");
